@@ -1,27 +1,243 @@
-//! C06 — not built yet (stub so that the binary links; `./check C06` reports INFRA until replaced).
+//! C06 — every accepted program yields loadable Lua (validity predicate: the Lua 5.3 loader rules).
+use crate::common::*;
 use arbitrary::Unstructured;
-use vcore::{Check, Labels, Plan, Tier, Verdict};
+use serde::{Deserialize, Serialize};
+use syltmodel::ast::*;
+use syltmodel::gen::{Gen, GenCfg, LEXICAL_FIELD_NAMES};
+use syltmodel::print::{Plan as SurfacePlan, LUA_KEYWORDS};
+use vcore::{compile, Check, Labels, Outcome, Plan, Project, Stats, Step, Tape, Tier, Verdict};
 
-pub struct Stub;
-pub const CHECK: Stub = Stub;
-pub fn plan(_t: Tier) -> Plan {
-    Plan::new(1, 16)
+pub struct C06;
+pub const CHECK: C06 = C06;
+pub fn plan(t: Tier) -> Plan {
+    Plan::new(t.pick(6_000, 120_000), t.pick(3000, 5000))
 }
-impl Check for Stub {
-    type Case = u8;
+
+#[derive(Clone, Serialize, Deserialize)]
+pub struct Case {
+    pub prog: ProgCase,
+    pub features: Vec<String>,
+}
+
+pub fn lexical_cfg(t: &mut Tape, thorough: bool) -> GenCfg {
+    let mut cfg = GenCfg::core(thorough);
+    cfg.lexical_names = true;
+    cfg.plain_strings = false;
+    cfg.extreme_literals = true;
+    cfg.scenario_weight = 1;
+    cfg.locals_budget = 150;
+    // known-finding avoidance (DESIGN §2.6): on for 80 % of the budget
+    let raw = t.chance(1, 5);
+    cfg.backslash_strings = raw;
+    cfg.long_bodies = if raw { 260 } else { 40 };
+    cfg.avoid_stmt_after_ret = t.chance(1, 2);
+    cfg.avoid_unused_andor = false;
+    cfg
+}
+
+fn features(p: &Program, src: &str) -> Vec<String> {
+    let mut f = std::collections::BTreeSet::new();
+    for b in &p.blobs {
+        for fd in &b.fields {
+            if LUA_KEYWORDS.contains(&fd.name.as_str()) {
+                f.insert("lua-keyword-field".to_string());
+            } else if LEXICAL_FIELD_NAMES.contains(&fd.name.as_str()) {
+                f.insert("odd-field-name".to_string());
+            }
+        }
+    }
+    syltmodel::walk::walk_program(p, &mut |e| match &e.kind {
+        EKind::Str(s) => {
+            if s.contains('\\') {
+                f.insert("backslash-in-string".to_string());
+            }
+            if s.contains('\n') || s.contains('\r') {
+                f.insert("newline-in-string".to_string());
+            }
+            if s.chars().any(|c| (c as u32) < 32 && c != '\n' && c != '\r') {
+                f.insert("control-char-in-string".to_string());
+            }
+            if !s.is_ascii() {
+                f.insert("non-ascii-string".to_string());
+            }
+        }
+        EKind::Int(i) if i.unsigned_abs() > (1u64 << 53) => {
+            f.insert("huge-int".to_string());
+        }
+        EKind::Float(t) if t.contains('e') || t.starts_with('.') || t.ends_with('.') => {
+            f.insert("odd-float-literal".to_string());
+        }
+        _ => {}
+    });
+    // unused expression statements / statements after ret / long bodies
+    fn blk(b: &Block, f: &mut std::collections::BTreeSet<String>) {
+        let mut seen_ret = false;
+        for s in &b.stmts {
+            if seen_ret {
+                f.insert("statement-after-ret".to_string());
+            }
+            match s {
+                Stmt::Ret(_) => seen_ret = true,
+                Stmt::Expr(x) => {
+                    if x.ty != Ty::Void && !matches!(x.kind, EKind::If(..) | EKind::Case { .. } | EKind::Call(..) | EKind::Std(..)) {
+                        f.insert("unused-expression".to_string());
+                    }
+                }
+                Stmt::Loop { body, .. } => blk(body, f),
+                Stmt::Block(b) => blk(b, f),
+                _ => {}
+            }
+        }
+        if b.stmts.len() >= 60 {
+            f.insert("long-body".to_string());
+        }
+    }
+    syltmodel::walk::walk_program(p, &mut |e| match &e.kind {
+        EKind::Lambda(d) => blk(&d.body, &mut f),
+        EKind::If(bs, d) => {
+            for (_, b) in bs {
+                blk(b, &mut f);
+            }
+            if let Some(d) = d {
+                blk(d, &mut f);
+            }
+        }
+        EKind::Case { arms, default, .. } => {
+            for a in arms {
+                blk(&a.body, &mut f);
+            }
+            if let Some(d) = default {
+                blk(d, &mut f);
+            }
+        }
+        _ => {}
+    });
+    if src.len() > 12_000 {
+        f.insert("large-program".to_string());
+    }
+    f.into_iter().collect()
+}
+
+impl Check for C06 {
+    type Case = Case;
     fn id(&self) -> &'static str {
         "C06"
     }
-    fn generate(&self, _u: &mut Unstructured, _tier: Tier) -> Option<u8> {
-        None
+    fn generate(&self, u: &mut Unstructured, tier: Tier) -> Option<Case> {
+        let mut t = Tape::new(u);
+        let cfg = lexical_cfg(&mut t, tier == Tier::Thorough);
+        let prog = Gen::new(&mut t, cfg).program();
+        let plan = SurfacePlan::default();
+        let source = render(&prog, &plan).text;
+        let features = features(&prog, &source);
+        Some(Case { prog: ProgCase { prog, plan, source }, features })
     }
-    fn evaluate(&self, _case: &u8, _labels: &mut Labels) -> Verdict {
-        Verdict::Discard("stub".into())
+
+    fn evaluate(&self, case: &Case, labels: &mut Labels) -> Verdict {
+        let printed = render(&case.prog.prog, &case.prog.plan);
+        let feats = features(&case.prog.prog, &printed.text);
+        for f in &feats {
+            labels.add(format!("feature:{}", f));
+        }
+        let out = compile(&Project::single(printed.text.clone()));
+        let lua = match &out {
+            Outcome::Accepted(b) => b,
+            Outcome::Rejected { errors, .. } => {
+                labels.add(format!("rejected:{}:{}", errors[0].kind, errors[0].sub));
+                if let Ok(d) = std::env::var("SAVE_REJECTED") {
+                    let _ = std::fs::create_dir_all(&d);
+                    let _ = std::fs::write(format!("{}/rej_{:x}.sy", d, vcore::hash64(&printed.text)), format!("// {}\n{}", out.short(), printed.text));
+                }
+                return Verdict::Discard("rejected".into());
+            }
+            Outcome::Panicked { .. } => return Verdict::Discard("compiler-panicked".into()),
+        };
+        labels.add("accepted");
+        match minilua::load(lua) {
+            Ok(chunk) => {
+                let st = minilua::load_stats(&chunk);
+                if st.max_register_estimate >= 230 {
+                    return Verdict::Discard("register-estimate-grey-zone".into());
+                }
+                if st.max_c_levels >= 185 {
+                    return Verdict::Discard("c-levels-grey-zone".into());
+                }
+                if st.max_active_locals > 150 {
+                    labels.add("many-locals");
+                }
+                Verdict::Pass { nontrivial: !feats.is_empty() }
+            }
+            Err(e) => {
+                let trigger = match e.class.as_str() {
+                    "reserved-name" => "field-name",
+                    "bad-escape" | "unfinished-string" => {
+                        if feats.iter().any(|f| f == "backslash-in-string") {
+                            "backslash-in-string-literal"
+                        } else if feats.iter().any(|f| f == "newline-in-string") {
+                            "newline-in-string-literal"
+                        } else {
+                            "string-literal"
+                        }
+                    }
+                    "too-many-locals" => {
+                        if e.msg.contains("main function") {
+                            "main-chunk"
+                        } else {
+                            "function-body"
+                        }
+                    }
+                    "return-not-last" => "statement-after-ret",
+                    _ => "other",
+                };
+                Verdict::Violation {
+                    signature: format!("C06/lua-load/{}/{}", e.class, trigger),
+                    detail: format!(
+                        "the compiler accepted the program but the emitted chunk does not load: {} (chunk line {})\nfeatures: {:?}\n--- source ---\n{}",
+                        e.msg, e.line, feats, printed.text
+                    ),
+                }
+            }
+        }
+    }
+
+    fn simplify_at(&self, case: &Case, idx: usize) -> Step<Case> {
+        match shrink_step(&case.prog, idx) {
+            Step::End => Step::End,
+            Step::Skip => Step::Skip,
+            Step::Candidate(p) => Step::Candidate(Case { prog: p, features: case.features.clone() }),
+        }
+    }
+    fn sample(&self, case: &Case) -> serde_json::Value {
+        let mut v = sample_of(&case.prog);
+        v["features"] = serde_json::json!(case.features);
+        v
     }
     fn rule(&self) -> String {
-        "stub".into()
+        "cases: random well-typed programs from the lexical profile: blob field names drawn from a pool with every Lua reserved word \
+         that Sylt allows (elseif for function goto local repeat return then until while), underscore and long names; string literals \
+         over arbitrary characters except the double quote (newline, CR, tab, control characters, UTF-8 incl. 4-byte; backslash in the \
+         20% of cases that run without the known-finding avoidance switches); ints up to i64::MAX, floats 1e308 1e-320 .5 5. 1e+2; \
+         unused expression statements of every kind; statements after `ret`; straight-line bodies of up to 260 extra definitions. \
+         Oracle: compile Accepted => the chunk passes mini-Lua's loader (lparser.c rules incl. 200 locals / 255 upvalues / C levels / \
+         return-must-be-last / reserved words / escapes / goto-label rules); register-estimate >= 230 or C levels >= 185 => case \
+         is inconclusive (discarded). non-trivial = accepted and at least one lexical corner feature present; distinct by case hash"
+            .into()
     }
-    fn health(&self, _s: &vcore::Stats) -> Result<(), String> {
-        Err("check not built yet".into())
+    fn assumptions(&self) -> Vec<String> {
+        vec!["mini-Lua's loader accepts exactly what lua5.3's luaL_loadbuffer accepts on this subset (conformance tests in harness/minilua/tests/loader.rs; jump-offset and constant-table limits are not modelled, generators stay far below them)".into()]
+    }
+    fn health(&self, s: &Stats) -> Result<(), String> {
+        if s.evaluations < 200 {
+            return Ok(());
+        }
+        if (s.label("accepted") as f64) < 0.5 * s.evaluations as f64 {
+            return Err("fewer than half of the generated programs compile".into());
+        }
+        for f in ["feature:lua-keyword-field", "feature:newline-in-string", "feature:unused-expression", "feature:non-ascii-string"] {
+            if s.label(f) * 50 < s.evaluations {
+                return Err(format!("lexical feature {} is (nearly) absent: {} of {}", f, s.label(f), s.evaluations));
+            }
+        }
+        Ok(())
     }
 }
